@@ -896,10 +896,25 @@ func (self *_Compiler) compileArray(p *_Program, sp int, vt reflect.Type) {
 		p.chr(_OP_match_char, ',')
 	}
 
+	/* a comma must be followed by a value: skip_array below starts in the
+	 * "no element yet" state, which would take "[1,2,]" for a closed [2]T */
+	e := -1
+	if vt.Len() > 0 {
+		p.add(_OP_lspace)
+		e = p.pc()
+		p.chr(_OP_check_char_0, ']')
+	}
+
 	/* drop rest of the array */
 	p.add(_OP_array_skip)
 	w := p.pc()
 	p.add(_OP_goto)
+
+	/* the ']' right behind a comma is not a ',': report it as invalid char */
+	if e >= 0 {
+		p.pin(e)
+		p.chr(_OP_match_char, ',')
+	}
 	p.rel(v)
 
 	/* check for pointer data */
